@@ -420,6 +420,20 @@ def package_in_use():
         tools.genhkl_all([5.0, 6.0, 7.0, 90.0, 100.0, 90.0], 0.0, 0.3, sgno=14)
     except Exception:
         pass
+    try:
+        # ... and a structure read from a CIF whose atom types are ions (Fe3+, O2-), as most inorganic CIFs have them
+        path = os.path.join(workdir("warmup"), "ions.cif")
+        with open(path, "w") as f:
+            f.write("data_ions\n_cell_length_a 5.0\n_cell_length_b 5.0\n_cell_length_c 13.7\n_cell_angle_alpha 90\n_cell_angle_beta 90\n"
+                    "_cell_angle_gamma 120\n_symmetry_space_group_name_H-M 'R -3 c'\nloop_\n_atom_type_symbol\n_atom_type_scat_dispersion_real\n"
+                    "_atom_type_scat_dispersion_imag\nFe3+ 0.3463 0.8444\nO2- 0.0106 0.0060\nloop_\n_atom_site_label\n_atom_site_type_symbol\n"
+                    "_atom_site_fract_x\n_atom_site_fract_y\n_atom_site_fract_z\n_atom_site_U_iso_or_equiv\n_atom_site_occupancy\n"
+                    "Fe1 Fe3+ 0.0 0.0 0.3553 0.004 1.0\nO1 O2- 0.3059 0.0 0.25 0.005 1.0\n")
+        b = structure.build_atomlist()
+        b.CIFread(ciffile=path)
+        os.remove(path)
+    except Exception:
+        pass
 
 
 def pmap(func, items, nproc=None, chunk=None):
